@@ -257,8 +257,10 @@ def _cli_case(case):
         path = os.path.join(d, 'in%d.pel' % n)
         seams.write_file(path, bytes.fromhex(h))
         for opt in (False, True):
-            cmd = [PY] + (['-O'] if opt else []) + [script, '-E', '-f', path]
-            rec = dict(kind='cli', shape_ok=True, prefix=prefix, opt=opt,
+            # the options that change what -f does with a decoded log (or with one it cannot decode)
+            extra = [[], ['-x'], ['-P'], [], ['-x', '-P'], ['-H', '-N', '-s'], ['-x']][(n + 2 * opt + len(h)) % 7]
+            cmd = [PY] + (['-O'] if opt else []) + [script, '-E', '-f', path] + extra
+            rec = dict(kind='cli', shape_ok=True, prefix=prefix, opt=opt, extra=extra,
                        input=h if len(h) <= 400 else h[:400] + '...')
             try:
                 p = subprocess.run(cmd, stdout=subprocess.PIPE, stderr=subprocess.PIPE, env=env, timeout=20)
@@ -271,8 +273,13 @@ def _cli_case(case):
                     rec['stdout'] = 'empty'
                 else:
                     try:
-                        json.loads(out)
-                        rec['stdout'] = 'json'
+                        if '-x' in extra:
+                            from .. import dirrun
+                            if dirrun.hex_blocks(out) is None:
+                                raise ValueError('not a delimited hex dump')
+                        else:
+                            json.loads(out)
+                        rec['stdout'] = 'json'          # (well-formed output of the mode asked for)
                     except ValueError:
                         rec['stdout'] = 'other'
             except subprocess.TimeoutExpired:
